@@ -20,8 +20,9 @@ class SubCtx:
         return self.tier == "quick"
 
 
-SHAPES = {"C04": ("huge_methods", "far"), "C07": ("huge_methods", "far", "deep"), "C06": ("huge_methods", "deep"),
-          "C01": ("huge_methods", "deep"), "C02": ("deep",), "C05": ("deep",)}
+SHAPES = {"C04": ("huge_methods", "far", "stub_boundary"), "C07": ("huge_methods", "far", "deep"),
+          "C06": ("huge_methods", "deep"), "C01": ("huge_methods", "deep", "stub_boundary"), "C02": ("deep",),
+          "C05": ("deep", "stub_boundary"), "C10": ("huge_methods", "stub_boundary", "stub_boundary", "stub_boundary")}
 
 
 def image_slices(ctx, pid, variants=genslice.VARIANTS, want=None, n_quick=8, n_thorough=40, dynamic=True):
